@@ -347,7 +347,11 @@ fn stage_c(ctx: &Ctx, q: u8, rep: &mut Report) {
                                 continue;
                             }
                             let fl = if flavour == Flavour::StdFixed { Flavour::StdPlus } else { flavour };
-                            let pic = one_coeff_picture(fl, q, intra, pos, level, form, 100, &mut rng);
+                            let mut pic = one_coeff_picture(fl, q, intra, pos, level, form, 100, &mut rng);
+                            // standard mode: half of the predicted pictures leave OPPTYPE out (UFEP = 000); PQUANT sits elsewhere then
+                            if !intra && (mag + pos as i32) % 2 == 0 && drop_format(&mut pic) {
+                                rep.count("C:predicted_pictures_without_opptype");
+                            }
                             let bytes = pic.encode();
                             rep.evaluations += 1;
                             let mut dec = Dec::new(fl.sorenson(), false);
@@ -656,6 +660,7 @@ pub fn run(ctx: &Ctx) -> (Report, String) {
         rep.require("C:version_mix:variant1", 31 * 18);
         rep.require("C:version_mix:variant2", 31 * 18);
         rep.require("C:inter:Esc11", 1000);
+        rep.require("C:predicted_pictures_without_opptype", 1000);
         rep.require("C:intra:Esc11", 1000);
         rep.exhaustive = Some(rep.violations.is_empty());
     }
